@@ -1,2 +1,406 @@
 import PaneModel.Model.Build
-/-! placeholder: dataclass construction model (C14-C17), filled in below -/
+import PaneModel.Model.Rename
+/-!
+# Dataclasses: class processing (`__init_subclass__` + `_process` + `make_field` + `_make_subclass`),
+construction (`__init__`, `make_unchecked`, `from_dict_unchecked`) and instance operations
+(`dict`, `__copy__`, `__replace__`, `__setattr__`, `__delattr__`).
+-/
+namespace PaneModel
+
+/-- a field as declared in a class body (`FieldSpec`) -/
+structure SpecM where
+  name : String
+  ty : Ty
+  rename : Option String := none
+  inNames : Option (List String) := none
+  aliases : Option (List String) := none
+  outName : Option String := none
+  init : Bool := true
+  exclude : Bool := false
+  kwOnly : Bool := false
+  compare : Bool := true
+  hash : Bool := true
+  repr : Bool := true
+  default : DefaultKind := .missing
+  converter : Option String := none
+  /-- declared through `field(...)` (a `FieldSpec` object in the class body) rather than by a bare
+  annotation / plain default value -/
+  viaFieldSpec : Bool := false
+  deriving Repr, Inhabited
+
+/-- one entry of a class body: a field or the `_: KW_ONLY` marker -/
+inductive BodyItem
+  | field (s : SpecM)
+  | kwOnlyMarker
+  deriving Repr, Inhabited
+
+/-- `__init_subclass__` keyword arguments; `none` = inherit -/
+structure OptsOverride where
+  outFormat : Option String := none
+  inFormat : Option (List String) := none
+  eq : Option Bool := none
+  order : Option Bool := none
+  frozen : Option Bool := none
+  unsafeHash : Option Bool := none
+  kwOnly : Option Bool := none
+  allowExtra : Option Bool := none
+  rename : Option String := none
+  inRename : Option (List String) := none
+  outRename : Option String := none
+  custom : Option (List Handler) := none
+  deriving Repr, Inhabited
+
+/-- effective `PaneOptions` -/
+structure Opts where
+  outFormat : String := "struct"
+  inFormat : List String := ["struct"]
+  eq : Bool := true
+  order : Bool := true
+  frozen : Bool := true
+  unsafeHash : Bool := false
+  kwOnly : Bool := false
+  allowExtra : Bool := false
+  inRename : Option (List String) := none
+  outRename : Option String := none
+  classHandlers : List Handler := []
+  deriving Repr, Inhabited
+
+inductive ClassErr
+  | typeError (msg : String)
+  | valueError (msg : String)
+  deriving Repr, Inhabited, DecidableEq
+
+/-- `opts.replace(**changes)`: only non-`None` changes apply (option inheritance).  Whether a missing
+`custom=` inherits the parent's handlers is an extracted fact (`inheritHandlers`). -/
+def Opts.apply (o : Opts) (ov : OptsOverride) (inheritHandlers : Bool) : Except ClassErr Opts :=
+  if ov.rename.isSome && (ov.inRename.isSome || ov.outRename.isSome) then
+    .error (.valueError "'rename' cannot be specified with 'in_rename' or 'out_rename'")
+  else
+    let inRename := match ov.rename with | some r => some [r] | none => ov.inRename
+    let outRename := match ov.rename with | some r => some r | none => ov.outRename
+    .ok { outFormat := ov.outFormat.getD o.outFormat
+          inFormat := ov.inFormat.getD o.inFormat
+          eq := ov.eq.getD o.eq, order := ov.order.getD o.order, frozen := ov.frozen.getD o.frozen
+          unsafeHash := ov.unsafeHash.getD o.unsafeHash
+          kwOnly := ov.kwOnly.getD o.kwOnly, allowExtra := ov.allowExtra.getD o.allowExtra
+          inRename := match inRename with | some r => some r | none => o.inRename
+          outRename := match outRename with | some r => some r | none => o.outRename
+          classHandlers := match ov.custom with
+            | some hs => hs
+            | none => if inheritHandlers then o.classHandlers else [] }
+
+def styleOf (s : String) : Option Rename.Style :=
+  match s with
+  | "snake" => some .snake | "scream" => some .scream | "kebab" => some .kebab
+  | "camel" => some .camel | "pascal" => some .pascal | _ => none
+
+/-- `rename_field(name, style)`; `none` = ValueError -/
+def renameField (name : String) (style : String) : Option String :=
+  (styleOf style).bind fun st => Rename.renameStr st name
+
+def dedupS : List String → List String
+  | [] => []
+  | x :: xs => x :: (dedupS xs).filter (· != x)
+
+/-- `FieldSpec.make_field` -/
+def makeField (s : SpecM) (inRename : Option (List String)) (outRename : Option String)
+    (aliasesIncludeRenamed : Bool) : Except ClassErr FieldInfo :=
+  let outName : Except ClassErr String :=
+    match s.outName, s.rename, outRename with
+    | some o, _, _ => .ok o
+    | none, some r, _ => .ok r
+    | none, none, some st => match renameField s.name st with
+      | some n => .ok n
+      | none => .error (.valueError ("Unable to interpret field '" ++ s.name ++ "' for automatic rename"))
+    | none, none, none => .ok s.name
+  let nset := (if s.rename.isSome then 1 else 0) + (if s.aliases.isSome then 1 else 0) + (if s.inNames.isSome then 1 else 0)
+  let renamed : Except ClassErr (List String) :=
+    match inRename with
+    | none => .ok []
+    | some styles => styles.mapM fun st => match renameField s.name st with
+      | some n => .ok n
+      | none => .error (.valueError ("Unable to interpret field '" ++ s.name ++ "' for automatic rename"))
+  match outName with
+  | .error e => .error e
+  | .ok outName =>
+    if nset > 1 then .error (.typeError "Can only specify one of 'rename', 'aliases', and 'in_names'")
+    else
+      let inNames : Except ClassErr (List String) :=
+        match s.rename, s.aliases, s.inNames with
+        | some r, _, _ => .ok [r]
+        | none, some al, _ =>
+          if aliasesIncludeRenamed then renamed.map fun rn => dedupS (s.name :: rn ++ al)
+          else .ok (s.name :: al.filter (· != s.name))
+        | none, none, some ns => .ok ns
+        | none, none, none => match inRename with
+          | some _ => renamed
+          | none => .ok [s.name]
+      inNames.map fun ins =>
+        { name := s.name, inNames := ins, outName := outName, init := s.init, exclude := s.exclude, kwOnly := s.kwOnly,
+          default := s.default, compare := s.compare, hash := s.hash, repr := s.repr }
+
+/-! ## type-variable substitution (`replace_typevars`) -/
+
+/-- union members are de-duplicated by structural identity of the type expression -/
+def dedupTy : List Ty → List Ty
+  | [] => []
+  | t :: ts => t :: (dedupTy ts).filter fun u => toString (repr u) != toString (repr t)
+
+mutual
+def substTy (σ : List (String × Ty)) : Ty → Ty
+  | .typeVar n b cs => match σ.lookup n with | some t => t | none => .typeVar n b cs
+  | .seq o (some a) => .seq o (some (substTy σ a))
+  | .tupleFixed ts => .tupleFixed (substTys σ ts)
+  | .mapping o as => .mapping o (substTys σ as)
+  | .union ts =>
+    -- flatten, de-duplicate, a single member is returned as itself
+    let flat := (substTys σ ts).flatMap fun t => match t with | .union us => us | t => [t]
+    let ded := dedupTy flat
+    match ded with
+    | [t] => t
+    | ts' => .union ts'
+  | .annotated t anns => .annotated (substTy σ t) anns
+  | .tupleLit ts => .tupleLit (substTys σ ts)
+  | t => t
+def substTys (σ : List (String × Ty)) : List Ty → List Ty
+  | [] => []
+  | t :: ts => substTy σ t :: substTys σ ts
+end
+
+/-- free type variables of a type, in order of first appearance (typing's `__parameters__`) -/
+partial def freeVars : Ty → List String
+  | .typeVar n _ _ => [n]
+  | .seq _ (some a) => freeVars a
+  | .tupleFixed ts | .union ts | .tupleLit ts => dedupS (ts.flatMap freeVars)
+  | .mapping _ as => dedupS (as.flatMap freeVars)
+  | .annotated t _ => freeVars t
+  | .cls _ as => dedupS (as.flatMap freeVars)
+  | _ => []
+
+/-! ## class processing -/
+
+structure ClassDeclM where
+  name : String
+  base : Option (String × List Ty) := none   -- parent dataclass and its subscript arguments
+  tvars : List String := []                   -- explicit `Generic[...]` parameters
+  opts : OptsOverride := {}
+  body : List BodyItem := []
+  hook : Option String := none
+  deriving Repr, Inhabited
+
+/-- a processed class: what `_process` leaves in `__pane_info__`, plus what subclasses need -/
+structure ClassM where
+  name : String
+  opts : Opts
+  specs : List SpecM            -- merged specs (field order of first declaration), types substituted
+  fields : List FieldInfo       -- positional first, keyword-only after
+  fieldTys : List Ty
+  fieldConv : List (Option String)
+  minPos : Nat
+  maxPos : Nat
+  params : List String          -- `__parameters__`
+  hook : Option String
+  /-- class attributes left behind by `_process` along the MRO: `setattr(cls, name, f.default)` for every
+  merged field with a plain default value (nearest class first) -/
+  attrs : List (String × Val) := []
+  deriving Repr, Inhabited
+
+/-- `specs.update(new)`: an existing name keeps its position and takes the new spec; new names are appended -/
+def specsUpdate (old new : List SpecM) : List SpecM :=
+  let replaced := old.map fun s => match new.find? (·.name == s.name) with | some n => n | none => s
+  replaced ++ new.filter fun n => !(old.any (·.name == n.name))
+
+/-- own specs of a class body: the KW_ONLY marker (and the class-level `kw_only` option) make later fields keyword-only -/
+def bodySpecs (kwOnly : Bool) (inheritedDefault : String → Option Val) : List BodyItem → List SpecM
+  | [] => []
+  | .kwOnlyMarker :: rest => bodySpecs true inheritedDefault rest
+  | .field s :: rest =>
+    -- `FieldSpec(ty=ty, default=getattr(cls, name, _MISSING))`: a bare re-annotation picks up the
+    -- class attribute a base class left behind, i.e. the inherited default VALUE
+    let dflt := match s.default, s.viaFieldSpec with
+      | .missing, false => match inheritedDefault s.name with | some v => DefaultKind.value v | none => .missing
+      | d, _ => d
+    { s with kwOnly := s.kwOnly || kwOnly, default := dflt } :: bodySpecs kwOnly inheritedDefault rest
+
+/-- positional bounds and the creation-time checks of `_process` -/
+def posBounds (inFormat : List String) : List FieldInfo → Nat → Nat → Bool → Except ClassErr (Nat × Nat)
+  | [], mn, mx, _ => .ok (mn, mx)
+  | f :: fs, mn, mx, seenOpt =>
+    if !f.init then posBounds inFormat fs mn mx seenOpt
+    else if f.kwOnly then
+      if !f.hasDefault && inFormat.contains "tuple" then
+        .error (.typeError ("Field '" ++ f.name ++ "' is kw_only but mandatory. This is incompatible with the 'tuple' in_format."))
+      else posBounds inFormat fs mn mx seenOpt
+    else if f.hasDefault then posBounds inFormat fs mn (mx + 1) true
+    else if seenOpt then .error (.typeError ("Mandatory field '" ++ f.name ++ "' follows optional field"))
+    else posBounds inFormat fs (mx + 1) (mx + 1) seenOpt
+
+/-- merge of `__parameters__` in `__init_subclass__` (an extracted fact selects the form) -/
+def mergeParams (form : Option String) (old declared : List String) : List String :=
+  match form with
+  | some "dedupKeepDeclared" =>
+    if old.all (declared.contains ·) then declared else old ++ declared.filter (!old.contains ·)
+  | _ => old ++ declared
+
+/-- `__init_subclass__` + `_process` for a class whose (already subscripted) parent is `parent`.
+`parentBound` = the `__pane_boundvars__` of the subscripted parent (empty if not subscripted). -/
+def processClass (d : ClassDeclM) (parent : Option ClassM) (parentBound : List (String × Ty))
+    (parentParams : List String) : Except ClassErr ClassM :=
+  let baseOpts : Opts := match parent with | some p => p.opts | none => {}
+  match baseOpts.apply d.opts (Facts.classHandlersInherit == some true) with
+  | .error e => .error e
+  | .ok opts =>
+    -- inherited specs, with the parent's subscription applied to every field type
+    let inherited : List SpecM := match parent with
+      | some p => p.specs.map fun s => { s with ty := substTy parentBound s.ty }
+      | none => []
+    let inhDefault := fun (n : String) => match parent with
+      | some p => p.attrs.lookup n
+      | none => none
+    let own := bodySpecs opts.kwOnly inhDefault d.body
+    let specs := specsUpdate inherited own
+    match specs.mapM fun s => makeField s opts.inRename opts.outRename (Facts.makeFieldAliasesIncludeRenamed == some true) with
+    | .error e => .error e
+    | .ok fields0 =>
+      let zipped := fields0.zip specs
+      let ordered := zipped.filter (fun p => !p.1.kwOnly) ++ zipped.filter (fun p => p.1.kwOnly)
+      let fields := ordered.map (·.1)
+      match posBounds opts.inFormat fields 0 0 false with
+      | .error e => .error e
+      | .ok (mn, mx) =>
+        .ok { name := d.name, opts := opts, specs := specs, fields := fields
+              fieldTys := ordered.map (·.2.ty), fieldConv := ordered.map (·.2.converter)
+              minPos := mn, maxPos := mx
+              params := mergeParams Facts.paramMerge parentParams d.tvars
+              hook := match d.hook with | some h => some h | none => parent.bind (·.hook)
+              attrs :=
+                let own := fields.filterMap fun f => match f.default with | .value v => some (f.name, v) | _ => none
+                own ++ (match parent with | some p => p.attrs.filter (fun a => !own.any (·.1 == a.1)) | none => []) }
+
+/-- `Cls[args]` (`_make_subclass`): binds `__parameters__` pointwise; arity is checked by `typing` -/
+def subscriptBound (c : ClassM) (args : List Ty) : Except ClassErr (List (String × Ty)) :=
+  if c.params.isEmpty then .error (.typeError "type is not subscriptable / not generic")
+  else if args.length != c.params.length then .error (.typeError "Too many or too few arguments")
+  else .ok (c.params.zip args)
+
+def ClassM.info (c : ClassM) : PaneInfo :=
+  { name := c.name, fields := c.fields, inFormat := c.opts.inFormat, outFormat := c.opts.outFormat,
+    allowExtra := c.opts.allowExtra, minPos := c.minPos, maxPos := c.maxPos, hook := c.hook }
+
+/-! ## construction -/
+
+inductive BindErr | tooManyPositional | unexpectedKeyword (k : String) | multipleValues (k : String) | missing (k : String)
+  deriving Repr, Inhabited
+
+/-- `inspect.Signature.bind(*args, **kwargs)` for the generated signature -/
+def bindSig (info : PaneInfo) (args : List Val) (kwargs : List (String × Val)) : Except BindErr (List (String × Val)) :=
+  let pos := (posFields info).map (·.1)
+  let initNames := (info.fields.filter (·.init)).map (·.name)
+  if args.length > pos.length then .error .tooManyPositional
+  else
+    let byPos := (pos.zip args).map fun (f, v) => (f.name, v)
+    match kwargs.find? fun (k, _) => !initNames.contains k with
+    | some (k, _) => .error (.unexpectedKeyword k)
+    | none =>
+      match kwargs.find? fun (k, _) => byPos.any (·.1 == k) with
+      | some (k, _) => .error (.multipleValues k)
+      | none =>
+        let bound := byPos ++ kwargs
+        match (info.fields.filter fun f => f.init && !f.hasDefault && !bound.any (·.1 == f.name)).head? with
+        | some f => .error (.missing f.name)
+        | none => .ok bound
+
+/-- the generated `__init__` body.  `conv i v` is `convert(v, field i's type)` when `checked`;
+`nextFactory` supplies a FRESH product per call (the counter is threaded by the caller). -/
+def initLoop (E : Ext) (factoryCalled : Bool) (conv : Nat → Val → Result) (checked : Bool) :
+    List (FieldInfo × Nat) → List (String × Val) → List (String × Val) → List String →
+    Except Result (List (String × Val) × List String)
+  | [], _, acc, set => .ok (acc, set)
+  | (f, i) :: rest, bound, acc, set =>
+    if !f.init then initLoop E factoryCalled conv checked rest bound acc set
+    else match bound.find? (·.1 == f.name) with
+      | some (_, v) =>
+        if checked then
+          match conv i v with
+          | .value x => initLoop E factoryCalled conv checked rest bound (acc ++ [(f.name, x)]) (set ++ [f.name])
+          | r => .error r
+        else initLoop E factoryCalled conv checked rest bound (acc ++ [(f.name, v)]) (set ++ [f.name])
+      | none =>
+        match fieldDefault E factoryCalled f with
+        | some d => initLoop E factoryCalled conv checked rest bound (acc ++ [(f.name, d)]) set
+        | none => .error (.raises { cls := .runtimeBug, msg := "Mismatch between fields and signature" })
+
+/-- `Cls(*args, **kwargs)` (checked) / `Cls.make_unchecked(*args, **kwargs)` -/
+def constructM (E : Ext) (info : PaneInfo) (conv : Nat → Val → Result) (checked : Bool)
+    (args : List Val) (kwargs : List (String × Val)) : Result :=
+  match bindSig info args kwargs with
+  | .error _ => .raises { cls := .typeError, msg := "TypeError: bind" }
+  | .ok bound =>
+    match initLoop E (Facts.initDefaultCalled == some true) conv checked info.fields.zipIdx bound [] [] with
+    | .error r => r
+    | .ok (vals, set) =>
+      match runHook E info vals with
+      | .ok final => .value (mkObj info final set)
+      | .error e => .raises e
+
+/-- `Cls.from_dict_unchecked(d, set_fields=…)` -/
+def fromDictUnchecked (E : Ext) (info : PaneInfo) (d : List (String × Val)) (set : Option (List String)) : Result :=
+  match runHook E info d with
+  | .ok final => .value (mkObj info final (set.getD (d.map (·.1))))
+  | .error e => .raises e
+
+/-- `obj.dict(set_only=…, rename=…)` -/
+def dictView (info : PaneInfo) (o : Val) (setOnly : Bool) (rename : Option String) : Except Exc Val :=
+  match o with
+  | .obj _ fs set =>
+    let names := if setOnly then set else (info.fields.filter (!·.exclude)).map (·.name)
+    let one := fun (n : String) =>
+      let key : Except Exc String := match rename with
+        | none => .ok n
+        | some st => match renameField n st with
+          | some r => .ok r
+          | none => .error { cls := .valueError, msg := "ValueError: Unable to interpret field" }
+      match key, fs.find? (·.1 == n) with
+      | .ok k, some (_, v) => .ok (Val.str k, v)
+      | .error e, _ => .error e
+      | _, none => .error { cls := .attributeError, msg := "AttributeError: " ++ n }
+    (exMapM one names).map fun kvs => .dict (Val.dictOfPairs kvs)
+  | _ => .error { cls := .attributeError, msg := "AttributeError" }
+
+/-- `copy.copy(obj)`: `from_dict_unchecked({all fields}, set_fields)` — a field never assigned raises -/
+def copyM (E : Ext) (info : PaneInfo) (o : Val) : Result :=
+  match o with
+  | .obj _ fs set =>
+    match info.fields.find? fun f => !fs.any (·.1 == f.name) with
+    | some f => .raises { cls := .attributeError, msg := "AttributeError: " ++ f.name }
+    | none => fromDictUnchecked E info (info.fields.filterMap fun f => fs.find? (·.1 == f.name)) (some set)
+  | _ => .raises { cls := .typeError, msg := "TypeError" }
+
+/-- `obj.__replace__(**changes)` = `Cls(**{set fields} | changes)` -/
+def replaceM (E : Ext) (info : PaneInfo) (conv : Nat → Val → Result) (o : Val) (changes : List (String × Val)) : Result :=
+  match o with
+  | .obj _ fs set =>
+    let cur := (info.fields.filter fun f => set.contains f.name).filterMap fun f => fs.find? (·.1 == f.name)
+    let merged := (cur.map fun (k, v) => match changes.find? (·.1 == k) with | some c => (k, c.2) | none => (k, v))
+      ++ changes.filter fun c => !cur.any (·.1 == c.1)
+    constructM E info conv true [] merged
+  | _ => .raises { cls := .typeError, msg := "TypeError" }
+
+/-- `setattr(obj, name, v)` -/
+def setattrM (frozen : Bool) (info : PaneInfo) (o : Val) (name : String) (v : Val) : Except Exc Val :=
+  if frozen then .error { cls := .attributeError, msg := "FrozenInstanceError: cannot assign to field '" ++ name ++ "'" }
+  else match o with
+    | .obj c fs set =>
+      if !info.fields.any (·.name == name) then .error { cls := .attributeError, msg := "AttributeError: no slot" }
+      else
+        let fs' := if fs.any (·.1 == name) then fs.map fun p => if p.1 == name then (name, v) else p else fs ++ [(name, v)]
+        .ok (mkObj info fs' (if set.contains name then set else set ++ [name]) |> fun
+          | .obj _ a b => .obj c a b
+          | x => x)
+    | _ => .error { cls := .typeError, msg := "TypeError" }
+
+/-- `delattr(obj, name)`: always refused -/
+def delattrM (_o : Val) (name : String) : Except Exc Val :=
+  .error { cls := .attributeError, msg := "AttributeError: cannot delete field '" ++ name ++ "'" }
+
+end PaneModel
